@@ -38,9 +38,10 @@ def generator(kind, cfg):
     rar = {"start_iter": cfg["start"], "update_every": cfg["every"]}
     dim = cfg.get("dim", 2)
     mins, maxs = tuple([0.0, -1.0][:dim]), tuple([1.0, 2.0][:dim])
+    tmin = cfg.get("tmin", 0.0); tmax = tmin + 1.0          # the time interval need not start at 0
     if kind == "ode":
         rar.update(sample_size_times=cfg["cand_t"], selected_sample_size_times=cfg["sel_t"])
-        return jinns.data.DataGeneratorODE(key, cfg["nt"], 0.0, 1.0, cfg["bt"], rar_parameters=rar, nt_start=cfg["nt_start"])
+        return jinns.data.DataGeneratorODE(key, cfg["nt"], tmin, tmax, cfg["bt"], rar_parameters=rar, nt_start=cfg["nt_start"])
     if kind == "statio":
         rar.update(sample_size_omega=cfg["cand_x"], selected_sample_size_omega=cfg["sel_x"])
         return jinns.data.CubicMeshPDEStatio(key=key, n=cfg["n"], nb=None, omega_batch_size=cfg["bx"], omega_border_batch_size=None,
@@ -48,7 +49,7 @@ def generator(kind, cfg):
     rar.update(sample_size_times=cfg["cand_t"], selected_sample_size_times=cfg["sel_t"],
                sample_size_omega=cfg["cand_x"], selected_sample_size_omega=cfg["sel_x"])
     return jinns.data.CubicMeshPDENonStatio(key=key, n=cfg["n"], nb=None, nt=cfg["nt"], omega_batch_size=cfg["bx"], omega_border_batch_size=None,
-                                            temporal_batch_size=cfg["bt"], dim=dim, min_pts=mins, max_pts=maxs, tmin=0.0, tmax=1.0,
+                                            temporal_batch_size=cfg["bt"], dim=dim, min_pts=mins, max_pts=maxs, tmin=tmin, tmax=tmax,
                                             rar_parameters=rar, n_start=cfg["n_start"], nt_start=cfg["nt_start"],
                                             cartesian_product=cfg.get("cartesian", True))
 
